@@ -341,6 +341,38 @@ func Sweep(algo string, maxLen int, threeSplits int, seed int64) (res Result) {
 }
 
 // KMAC parameter grid: key lengths (incl. the block-boundary lengths computed by KmacPad.tla), customizers, output sizes
+// kmacEncodings: the points where left_encode / right_encode gain a byte: output sizes of 2^13, 2^21 (and 2^20: a bit length that
+// is a multiple of 8) bytes, keys and customizers of 32 and 8192 bytes
+func kmacEncodings(res *Result, add func(pred, d string)) {
+	data := pat(21, 300)
+	for _, ol := range []int{8191, 8192, 8193, 32767, 32768, 1<<20 - 1, 1 << 20, 1<<20 + 1, 3 << 19, 1<<21 - 1, 1 << 21, 1<<21 + 1} {
+		key, cust := pat(33, 40), pat(34, 9)
+		h, err := hash.NewKMAC_128(key, cust, ol)
+		if err != nil {
+			add("KmacConstructor", fmt.Sprintf("output size %d: %v", ol, err))
+			continue
+		}
+		res.Evals++
+		if got := h.ComputeHash(data); !bytes.Equal(got, RefKMAC128(key, cust, data, ol)) {
+			add("KmacSP800_185", fmt.Sprintf("KMAC128 with output size %d bytes differs from SP 800-185", ol))
+		}
+	}
+	for _, kl := range []int{31 + 1, 8191, 8192, 8193, 70000} {
+		for _, cl := range []int{0, 31, 32, 33, 8191, 8192, 8193} {
+			key, cust := pat(kl%97, kl), pat(cl%89, cl)
+			h, err := hash.NewKMAC_128(key, cust, 64)
+			if err != nil {
+				add("KmacConstructor", fmt.Sprintf("key %d customizer %d: %v", kl, cl, err))
+				continue
+			}
+			res.Evals++
+			if got := h.ComputeHash(data); !bytes.Equal(got, RefKMAC128(key, cust, data, 64)) {
+				add("KmacSP800_185", fmt.Sprintf("KMAC128 key length %d, customizer length %d differs from SP 800-185", kl, cl))
+			}
+		}
+	}
+}
+
 func KmacGrid(boundary []int, seed int64, dense bool) (res Result) {
 	res.ID = "kmac-grid"
 	res.Violations = []Violation{}
@@ -354,6 +386,7 @@ func KmacGrid(boundary []int, seed int64, dense bool) (res Result) {
 			res.Violations = append(res.Violations, Violation{"C13", pred, d})
 		}
 	}
+	kmacEncodings(&res, add)
 	rng := rand.New(rand.NewSource(seed))
 	keyLens := map[int]bool{}
 	for _, b := range boundary {
